@@ -276,7 +276,27 @@ def invalid_ke_retries(ck, base):
             sh = km.attach(sim, S.W.dh_log)
             sim.acquire(a, 0)
             sim.drain()
-            for act in ('rekey_ike', 'rekey_child', 'new_child', 'rekey_ike', 'rekey_child'):
+            acts = ('rekey_ike', 'rekey_child', 'new_child', 'rekey_ike', 'rekey_child')
+            if rep == 0:
+                # first an IKE_SA rekey of A that the busy peer pushes back with TEMPORARY_FAILURE (B has a probe of its own outstanding when the request arrives):
+                # A is ESTABLISHED again and keeps whatever it had prepared for the successor; the PFS CHILD_SA exchanges with their INVALID_KE_PAYLOAD retry come next
+                ea, eb = histories.established(a), histories.established(b)
+                if ea and eb:
+                    eb[0].start_dpd_at = sim.clock.t - 1
+                    b.step('tick')
+                    held = list(sim.net)
+                    sim.net.clear()
+                    ea[0].rekey_ike_sa_at = sim.clock.t - 1
+                    ea[0].delete_ike_sa_at = sim.clock.t + 600
+                    a.step('tick')
+                    sim.drain()                  # B answers TEMPORARY_FAILURE
+                    sim.net.extend(held)
+                    sim.drain()
+                    if ea[0].state.name == 'ESTABLISHED' and ea[0] in a.ctl.ike_sas:
+                        ck.count('ke_retry.histories_after_a_refused_ike_rekey')
+                        ea[0].rekey_ike_sa_at = sim.clock.t + 3000
+                acts = ('new_child', 'rekey_child', 'rekey_ike', 'rekey_child')
+            for act in acts:
                 for ep in ((a, b) if rep < 2 else (b, a)):
                     est = histories.established(ep)
                     if not est:
@@ -374,6 +394,7 @@ def verdict(ck):
     c = ck.counters
     t = ck.thorough()
     ck.floor('crossing-exchange walks', c['crossing.walks'], 40)
+    ck.floor('INVALID_KE_PAYLOAD histories that start with an IKE_SA rekey pushed back by TEMPORARY_FAILURE', c['ke_retry.histories_after_a_refused_ike_rekey'], 6)
     ck.floor('end-to-end handshakes whose Diffie-Hellman result has a leading zero octet', c['leading_zero.completed_with_rfc_keys'], 12)
     ck.floor('CREATE_CHILD_SA requests answered on an IKE_SA that had already rekeyed itself', c['old_ike_sa.requests_answered'], 25)
     ck.floor('prf+ lengths compared', c['prfplus.lengths_compared'], 3000)
